@@ -159,6 +159,26 @@ func genC15(r *rand.Rand, run int, _ string) *Scenario {
 		return op
 	}
 
+	if run%12 == 8 {
+		// several clients invalidate the same labels at the same time and one Delete call fails: whoever is
+		// told "nil" may rely on the labelled keys being gone
+		ix.FailAt = r.IntN(3)
+
+		nc := 2 + r.IntN(2)
+		for c := 0; c < nc; c++ {
+			ops := []IndexOp{{Kind: "invalidate", Labels: append([]string(nil), labels...)}}
+			if chance(r, 0.3) {
+				ops = append(ops, inv())
+			}
+
+			ix.Clients = append(ix.Clients, ops)
+		}
+
+		sc.Sched = genSched(r, 60)
+
+		return sc
+	}
+
 	if run%12 == 11 {
 		// concurrent AddLabels while an InvalidateByLabels call hits a deleter failure; afterwards a
 		// fault-free sweep over all labels must remove every key that was ever labelled
@@ -816,17 +836,24 @@ func (r *ixRun) checkConcurrent() {
 				continue
 			}
 
-			// an earlier invalidate of the same label may have consumed the association
-			consumed := false
+			// an earlier or overlapping invalidate of the same label may have consumed the association: the key
+			// may then have been written back afterwards without a label
+			consumed, failedOverlap := false, false
 
 			for _, o := range r.recs {
 				if o != inv && o.op.Kind == "invalidate" && o.inv < inv.ret && o.ret > al.inv {
 					consumed = true
-				}
-			}
 
-			if consumed {
-				continue
+					if o.err != nil && o.ret > inv.inv {
+						for _, l := range al.op.Labels {
+							for _, x := range o.op.Labels {
+								if l == x {
+									failedOverlap = true
+								}
+							}
+						}
+					}
+				}
 			}
 
 			key := r.sc.Keys[al.op.Key]
@@ -836,16 +863,30 @@ func (r *ixRun) checkConcurrent() {
 					continue
 				}
 
-				// was the key (re)written in this cache after the invalidate started?
-				rewritten := false
+				// was the key (re)written in this cache after the invalidate started / after it was labelled?
+				rewritten, rewrittenSinceLabel := false, false
 
 				for _, w := range r.recs {
-					if w.op.Kind == "write" && w.op.Cache == i && r.sc.Keys[w.op.Key] == key && w.ret > inv.inv {
-						rewritten = true
+					if w.op.Kind == "write" && w.op.Cache == i && r.sc.Keys[w.op.Key] == key {
+						if w.ret > inv.inv {
+							rewritten = true
+						}
+
+						if w.ret > al.inv {
+							rewrittenSinceLabel = true
+						}
 					}
 				}
 
-				if !rewritten && r.present(i, key) {
+				if rewritten || (consumed && rewrittenSinceLabel) || !r.present(i, key) {
+					continue
+				}
+
+				// Nobody wrote the key since it was labelled, the call was invoked after that and returned nil,
+				// and the key is still there.
+				if failedOverlap {
+					out.violate("C15.R1", "labelled-key-survived-overlapping-invalidate-of-the-label-failed", "key %q was labelled %v under %q before InvalidateByLabels(%v) was invoked and the call returned nil, yet the key is still present in cache #%d and was not written since: another InvalidateByLabels call of the label ran at the same time, had taken the key out of the index and failed", key, al.op.Labels, al.op.Name, inv.op.Labels, i)
+				} else {
 					out.violate("C15.R1", "labelled-key-survived-concurrent", "key %q was labelled %v under %q before InvalidateByLabels(%v) was invoked and the call returned nil, yet the key is still present in cache #%d", key, al.op.Labels, al.op.Name, inv.op.Labels, i)
 				}
 			}
